@@ -1,376 +1,1 @@
-/-
-Scenario replay: parsing, oracle construction from tapes, canonical printing.
-Not part of any theorem; it is the executable half of the correspondence check.
--/
-import Hb.Model.Api
-import Hb.Proofs.Defs
-import Std.Data.HashMap
-namespace Hb.Driver
-open Hb
-
-/-! ### deterministic pseudo-random oracles (identical in `harness/src/tape.rs`) -/
-
-def splitmix64 (x : UInt64) : UInt64 :=
-  let z := x + 0x9E3779B97F4A7C15
-  let z := (z ^^^ (z >>> 30)) * 0xBF58476D1CE4E5B9
-  let z := (z ^^^ (z >>> 27)) * 0x94D049BB133111EB
-  z ^^^ (z >>> 31)
-
-def mix3 (seed a b : Nat) : Nat :=
-  (splitmix64 (splitmix64 (UInt64.ofNat seed + UInt64.ofNat a) + UInt64.ofNat b)).toNat
-
-structure EnvP where
-  hashMode : String := "plan"    -- plan | mix
-  hashSeed : Nat := 0
-  hpanic : Option Nat := none
-  eqMode : String := "law"       -- law | mix
-  eqSeed : Nat := 0
-  epanic : Option Nat := none
-  cpanic : Option Nat := none
-  predSeed : Nat := 0
-  ppanic : Option Nat := none
-  dpanic : Option Nat := none
-  afail : Option Nat := none     -- this request fails
-  afrom : Option Nat := none     -- every request from this one on fails
-
-def mkEnv (p : EnvP) (plan : Std.HashMap Nat Nat) : Env :=
-  { hash := fun c k =>
-      if p.hpanic == some c then none
-      else if p.hashMode == "mix" then some (mix3 p.hashSeed c k)
-      else some ((plan.get? k).getD (mix3 0x5eed 0 k))
-    eq := fun c q e =>
-      if p.epanic == some c then none
-      else if p.eqMode == "mix" then some (mix3 p.eqSeed c 0 % 2 == 1)
-      else some (q == e.k)
-    clone := fun c _ =>
-      if p.cpanic == some c then none else some (1000000 + 2 * c, 1000001 + 2 * c)
-    pred := fun c e =>
-      if p.ppanic == some c then none
-      else
-        let r := mix3 p.predSeed c 0
-        some (r % 2 == 1, if (r / 2) % 4 == 0 then e.v + 7 else e.v)
-    allocOk := fun j =>
-      !(p.afail == some j) && !(match p.afrom with | some f => j ≥ f | none => false)
-    dropPanics := fun c _ => p.dpanic == some c }
-
-/-! ### printing -/
-
-def hexDigit (n : Nat) : Char := "0123456789abcdef".toList.getD n '?'
-def hex2 (b : Nat) : String := String.ofList [hexDigit (b / 16 % 16), hexDigit (b % 16)]
-
-def fnv64 (s : String) : UInt64 :=
-  s.toList.foldl (fun h c => (h ^^^ UInt64.ofNat c.toNat) * 0x100000001b3) 0xcbf29ce484222325
-
-def hex64 (x : UInt64) : String :=
-  String.ofList ((List.range 16).map fun i => hexDigit ((x.toNat / 16 ^ (15 - i)) % 16))
-
-def fmtElem (ids : Bool) (e : Elem) : String :=
-  if ids then s!"{e.k}.{e.kid}.{e.vid}.{e.v}" else s!"{e.k}.0.0.{e.v}"
-
-def fmtState (ids : Bool) (t : Raw) : String :=
-  let c := String.join (t.ctrl.toList.map hex2)
-  let s := String.intercalate "," <|
-    (List.range t.slots.size).filterMap fun i =>
-      match t.slots[i]? with
-      | some (some e) => some s!"{i}:{fmtElem ids e}"
-      | _ => none
-  let body := s!"c={c} s={s}"
-  let body := if body.length > 600 then s!"#{hex64 (fnv64 body)}" else body
-  s!"m={t.mask} i={t.items} g={t.gl} {body}"
-
-def fmtEvents (coll : String) (needsDrop : Bool) (log : List Ev) : String :=
-  let strs := log.filterMap fun ev =>
-    match ev with
-    | .dropK kid => if needsDrop then some s!"dk{kid}" else none
-    | .dropV vid => if needsDrop && coll == "map" then some s!"dv{vid}" else none
-    | .alloc s a => some s!"al{s}/{a}"
-    | .free s a => some s!"fr{s}/{a}"
-  String.intercalate "," (strs.toArray.qsort (· < ·)).toList
-
-def fmtOptElem (ids : Bool) : Option Elem → String
-  | none => "-"
-  | some e => fmtElem ids e
-
-def fmtOptVal (ids : Bool) : Option (Nat × Nat) → String
-  | none => "-"
-  | some (vid, v) => if ids then s!"{vid}.{v}" else s!"0.{v}"
-
-def fmtNats (l : List Nat) : String := String.intercalate "," (l.map toString)
-
-def fmtTre : Option TryReserveError → String
-  | none => "ok"
-  | some .capacityOverflow => "err(CapacityOverflow)"
-  | some (.allocError s a) => s!"err(AllocError {s} {a})"
-
-/-! ### driver state -/
-
-structure DState where
-  cfg : Cfg
-  coll : String := "map"
-  ids : Bool := true
-  envp : EnvP := {}
-  plan : Std.HashMap Nat Nat := {}
-  a : Raw
-  b : Raw
-  w : World
-  live : List (Nat × Nat) := []     -- blocks allocated and not yet freed, over the whole scenario
-
-/-- Apply the allocator events of one operation to the live-block multiset (oldest event first). -/
-def applyLive (live : List (Nat × Nat)) (log : List Ev) : List (Nat × Nat) :=
-  log.reverse.foldl (fun l ev =>
-    match ev with
-    | .alloc s a => (s, a) :: l
-    | .free s a => l.erase (s, a)
-    | _ => l) live
-
-def DState.init : DState :=
-  let cfg : Cfg := { ops := Sse2.ops }
-  { cfg := cfg, a := Raw.new cfg.W, b := Raw.new cfg.W, w := { t := Raw.new cfg.W } }
-
-def kv (tok : String) : String × String :=
-  match tok.splitOn "=" with
-  | [k, v] => (k, v)
-  | _ => (tok, "")
-
-def optNat (s : String) : Option Nat := if s == "-" then none else s.toNat?
-
-def parseScn (toks : List String) (st : DState) : DState :=
-  let kvs := toks.map kv
-  let get (k : String) (d : String) := (kvs.find? (·.1 == k)).map (·.2) |>.getD d
-  let wN := (get "w" "16").toNat!
-  let ops := if wN == 8 then Generic.ops else Sse2.ops
-  let cfg : Cfg := { ops := ops, size := (get "size" "32").toNat!, align := (get "align" "8").toNat!,
-                     needsDrop := get "drop" "1" == "1", guardAlways := get "fixed" "1" == "1" }
-  { cfg := cfg, coll := get "coll" "map", ids := get "ids" "1" == "1", envp := {}, plan := {},
-    a := Raw.new cfg.W, b := Raw.new cfg.W, w := { t := Raw.new cfg.W }, live := [] }
-
-def parseEnv (toks : List String) (st : DState) : DState :=
-  let p := toks.foldl (fun (p : EnvP) tok =>
-    let (k, v) := kv tok
-    match k with
-    | "hash" =>
-      match v.splitOn ":" with
-      | ["mix", s] => { p with hashMode := "mix", hashSeed := s.toNat! }
-      | _ => { p with hashMode := "plan" }
-    | "eq" =>
-      match v.splitOn ":" with
-      | ["mix", s] => { p with eqMode := "mix", eqSeed := s.toNat! }
-      | _ => { p with eqMode := "law" }
-    | "hpanic" => { p with hpanic := optNat v }
-    | "epanic" => { p with epanic := optNat v }
-    | "cpanic" => { p with cpanic := optNat v }
-    | "ppanic" => { p with ppanic := optNat v }
-    | "dpanic" => { p with dpanic := optNat v }
-    | "pred" => { p with predSeed := v.toNat! }
-    | "afail" => { p with afail := optNat v }
-    | "afrom" => { p with afrom := optNat v }
-    | _ => p) st.envp
-  { st with envp := p }
-
-def parsePlan (toks : List String) (st : DState) : DState :=
-  { st with plan := toks.foldl (fun m tok =>
-      match tok.splitOn "=" with
-      | [k, h] => m.insert k.toNat! h.toNat!
-      | _ => m) st.plan }
-
-/-- Outcome of one operation on the selected collection: text of the return value, new table of the
-    target, world. -/
-structure StepOut where
-  ret : String
-  w : World
-
-def resOut {α} (r : Res (α × World)) (fmt : α → String) (w0 : World) : StepOut × Bool :=
-  match r with
-  | .ok (a, w) => ({ ret := fmt a, w := w }, false)
-  | .panic c w => ({ ret := s!"panic:{c}", w := w }, false)
-  | .abort => ({ ret := "abort", w := w0 }, true)
-  | .fault f => ({ ret := s!"FAULT({f})", w := w0 }, true)
-
-def resOutW (r : Res World) (w0 : World) : StepOut × Bool :=
-  resOut (r.bind fun w => .ok ((), w)) (fun _ => "()") w0
-
-def nat! (s : String) : Nat := s.toNat!
-
-/-- Execute one op on target table `w.t`; `other` is the second collection (read-only source). -/
-def execOp (st : DState) (env : Env) (name : String) (args : List String) (other : Raw) (w : World) :
-    StepOut × Bool × Option Raw :=   -- (out, fatal, new value for the *other* collection)
-  let cfg := st.cfg
-  let ids := st.ids
-  let no (x : StepOut × Bool) : StepOut × Bool × Option Raw := (x.1, x.2, none)
-  match name, args with
-  | "insert", [k, kid, vid, v] =>
-    no <| resOut (Map.insert cfg env ⟨nat! k, nat! kid, nat! vid, nat! v⟩ w) (fmtOptVal ids) w
-  | "get", [k] => no <| resOut (Map.get cfg env (nat! k) w) (fmtOptElem ids) w
-  | "contains", [k] => no <| resOut (Map.get cfg env (nat! k) w) (fun r => toString r.isSome) w
-  | "getmut", [k, nv] => no <| resOut (Map.getMut cfg env (nat! k) (nat! nv) w) (fmtOptElem ids) w
-  | "remove", [k] => no <| resOut (Map.remove cfg env (nat! k) w) (fmtOptVal ids) w
-  | "remove_entry", [k] => no <| resOut (Map.removeEntry cfg env (nat! k) w) (fmtOptElem ids) w
-  | "clear", [] => no <| resOutW (clear cfg env w) w
-  | "reserve", [n] => no <| resOutW (Map.reserve cfg env (nat! n) w) w
-  | "try_reserve", [n] => no <| resOut (Map.tryReserve cfg env (nat! n) w) fmtTre w
-  | "shrink_to", [m] => no <| resOutW (shrinkTo cfg env (nat! m) w) w
-  | "shrink_to_fit", [] => no <| resOutW (shrinkTo cfg env 0 w) w
-  | "retain", [] => no <| resOutW (Map.retain cfg env w) w
-  | "extract_if", [k] =>
-    no <| resOut (Map.extractIf cfg env (nat! k) w) (fun l => String.intercalate "," (l.map (fmtElem ids))) w
-  | "drain", [k, fg] =>
-    no <| resOut (Map.drain cfg env (nat! k) (fg == "1") w) (fun l => String.intercalate "," (l.map (fmtElem ids))) w
-  | "into_iter", [k] =>
-    no <| resOut (Map.intoIter cfg env (nat! k) w) (fun l => String.intercalate "," (l.map (fmtElem ids))) w
-  | "iter", p :: _ =>
-    match Map.iterObserve cfg w.t (nat! p) with
-    | .error f => ({ ret := s!"FAULT({f})", w := w }, true, none)
-    | .ok (pre, folded, rest, hints) =>
-      ({ ret := s!"pre={fmtNats pre} fold={fmtNats folded} rest={fmtNats rest} sh={fmtNats hints}", w := w }, false, none)
-  | "with_capacity", [n] =>
-    -- the old collection is dropped, a new one created
-    let r : Res World := do
-      let old := w.t
-      let w1 ← dropInnerTable cfg env old { w with t := Raw.new cfg.W }
-      withCapacity cfg env (nat! n) w1
-    no <| resOutW r w
-  | "clone_to_other", [] =>
-    -- other := self.clone()  (old `other` dropped first)
-    let r : Res (Raw × World) := do
-      let w1 ← dropInnerTable cfg env other w
-      Map.cloneTable cfg env w1
-    match r with
-    | .ok (nt, w') => ({ ret := "()", w := w' }, false, some nt)
-    | .panic c w' => ({ ret := s!"panic:{c}", w := w' }, false, some (Raw.new cfg.W))
-    | .abort => ({ ret := "abort", w := w }, true, none)
-    | .fault f => ({ ret := s!"FAULT({f})", w := w }, true, none)
-  | "clone_from", [] => no <| resOutW (Map.cloneFrom cfg env other w) w
-  | "eq", [] => no <| resOut (Map.mapEq cfg env other w) toString w
-  | "nop", [] => no ({ ret := "()", w := w }, false)
-  | _, _ => ({ ret := s!"bad-op {name}", w := w }, true, none)
-
-/-- Run-time test of the invariant definitions on the model state (never fires unless the model or
-    the definitions are wrong; a firing shows up as a disagreement with the implementation). -/
-def invNote (st : DState) (t : Raw) : String :=
-  if !invB st.cfg t then s!" INV-FAIL({invWhy st.cfg t})"
-  else if st.envp.hashMode == "plan" && st.envp.eqMode == "law" && st.coll != "table" && t.buckets ≤ 64 then
-    let H := fun k => (st.plan.get? k).getD (mix3 0x5eed 0 k)
-    if invLB st.cfg H t then "" else " INVL-FAIL"
-  else ""
-
-def obsLine (st : DState) (out : StepOut) : String :=
-  let alloc := match allocationSize st.cfg out.w.t with | .ok n => toString n | .error f => s!"FAULT({f})"
-  s!"{out.ret}{invNote st out.w.t} ; {fmtState st.ids out.w.t} len={out.w.t.items} cap={out.w.t.capacity} asz={alloc} ; {fmtEvents st.coll st.cfg.needsDrop out.w.log} ; h={out.w.hc} e={out.w.ec} c={out.w.cc} p={out.w.pc} a={out.w.ac} d={out.w.dc}"
-
-
-/-! ### pure-function lines (C17, C18) -/
-
-def unhex (s : String) : List Nat :=
-  let cs := s.toList
-  let dv (c : Char) : Nat :=
-    if c.isDigit then c.toNat - '0'.toNat else if c.toNat ≥ 'a'.toNat then c.toNat - 'a'.toNat + 10 else 0
-  let rec go (l : List Char) (fuel : Nat) : List Nat :=
-    match fuel, l with
-    | fuel + 1, a :: b :: rest => (dv a * 16 + dv b) :: go rest fuel
-    | _, _ => []
-  go cs cs.length
-
-def fmtOptNat : Option Nat → String
-  | none => "none"
-  | some b => s!"some {b}"
-
-def evalFn (cfg : Cfg) (toks : List String) : String :=
-  let W := cfg.W
-  let bits := cfg.bits
-  match toks with
-  | ["fn", "c2b", cap, size] => fmtOptNat (capacityToBuckets bits W (nat! size) (nat! cap))
-  | ["fn", "bm2c", m] => toString (bucketMaskToCapacity (nat! m))
-  | ["fn", "layout", size, ca, b] =>
-    match calculateLayoutFor bits W (nat! size) (nat! ca) (nat! b) with
-    | none => "none"
-    | some l => s!"some {l.size} {l.align} {l.ctrlOffset}"
-  | ["fn", "probe", h, mask, steps] =>
-    let rec go (k : Nat) (p : ProbeSeq) (acc : List Nat) : List Nat :=
-      match k with
-      | 0 => acc.reverse
-      | k + 1 => go k (p.moveNext W (nat! mask)) (p.pos :: acc)
-    fmtNats (go (nat! steps) (probeSeq bits (nat! mask) (nat! h)) [])
-  | ["fn", "tag", h] => s!"{tagFull bits (nat! h)} {h1 bits (nat! h)}"
-  | ["fn", "tagbits", b] =>
-    let sie := if isSpecial (nat! b) then toString (specialIsEmpty (nat! b)) else "na"
-    s!"{isFull (nat! b)} {isSpecial (nat! b)} {sie}"
-  | ["fn", "samegroup", i, ni, h, mask] =>
-    toString (isInSameGroup bits W (nat! mask) (nat! i) (nat! ni) (nat! h))
-  | ["fn", "grp", hx, t] =>
-    let g := unhex hx
-    let o := cfg.ops
-    let cv := String.join ((o.convert g).map hex2)
-    s!"mt={fmtNats (o.matchTag g (nat! t))} me={fmtNats (o.matchEmpty g)} ms={fmtNats (o.matchSpecial g)} mf={fmtNats (o.matchFull g)} lz={o.emptyLeadingZeros g} tz={o.emptyTrailingZeros g} cv={cv}"
-  | ["fn", "static_empty"] => String.join ((Raw.new W).ctrl.toList.map hex2)
-  | ["fnrange", "c2b", lo, hi, size] =>
-    let lo := nat! lo
-    let hi := nat! hi
-    let size := nat! size
-    Id.run do
-      let mut out := ""
-      let mut last : Option (Option Nat) := none
-      for i in [0:hi - lo] do
-        let cap := lo + i
-        let v := capacityToBuckets bits W size cap
-        if last != some v then
-          out := out ++ s!"{cap}:{(fmtOptNat v).replace " " ""},"
-          last := some v
-      return out
-  | ["fnrange", "bm2c", hi] =>
-    String.intercalate "," ((List.range (nat! hi)).map fun k => toString (bucketMaskToCapacity (2 ^ k - 1)))
-  | ["fnrange", "capcheck", _, _, _] => "bad=0"     -- the property itself (theorem capacityToBuckets_spec)
-  | _ => s!"bad-fn {String.intercalate " " toks}"
-
-/-- Process one line; returns the new state and an optional output line. -/
-def stepLine (st : DState) (line : String) : DState × Option String :=
-  let toks := (line.trimAscii.toString.splitOn " ").filter (· ≠ "")
-  match toks with
-  | [] => (st, none)
-  | "scn" :: id :: rest => (parseScn rest st, some s!"scn {id}")
-  | "env" :: rest => (parseEnv rest st, none)
-  | "plan" :: rest => (parsePlan rest st, none)
-  | "fn" :: _ => (st, some (evalFn st.cfg toks))
-  | "fnrange" :: _ => (st, some (evalFn st.cfg toks))
-  | "end" :: _ =>
-    -- both collections are dropped; whatever is still allocated afterwards was leaked
-    let env := mkEnv { st.envp with dpanic := none } st.plan
-    let w0 : World := { st.w with t := Raw.new st.cfg.W, log := [] }
-    let r : Res World := do
-      let w1 ← dropInnerTable st.cfg env st.a w0
-      dropInnerTable st.cfg env st.b w1
-    match r with
-    | .ok w' =>
-      let live := applyLive st.live w'.log
-      if live.isEmpty then (st, some "end")
-      else
-        let strs := (live.map fun (s, a) => s!"leaked block {s}/{a}").toArray.qsort (· < ·)
-        (st, some s!"end ORACLE {String.intercalate " | " strs.toList}")
-    | _ => (st, some "end MODEL-FAULT")
-  | "op" :: tgt :: name :: args =>
-    let env := mkEnv st.envp st.plan
-    let (self, other) := if tgt == "a" then (st.a, st.b) else (st.b, st.a)
-    let w0 : World := { st.w with t := self, log := [] }
-    let (out, _fatal, newOther) := execOp st env name args other w0
-    let line := obsLine st out
-    let other' := newOther.getD other
-    let live := applyLive st.live out.w.log
-    let st' := if tgt == "a" then { st with a := out.w.t, b := other', w := out.w, live := live }
-               else { st with b := out.w.t, a := other', w := out.w, live := live }
-    (st', some line)
-  | _ => (st, some s!"bad-line {line}")
-
-partial def loop (hin : IO.FS.Stream) (hout : IO.FS.Stream) (st : DState) : IO Unit := do
-  let line ← hin.getLine
-  if line.isEmpty then return ()
-  let (st', out) := stepLine st line
-  match out with
-  | some s => hout.putStrLn s
-  | none => pure ()
-  loop hin hout st'
-
-def run (_args : List String) (hin hout : IO.FS.Stream) : IO UInt32 := do
-  loop hin hout DState.init
-  hout.flush
-  return 0
-
-end Hb.Driver
+import Hb.Driver.Main
